@@ -96,7 +96,7 @@ maildir_open(const char *path, unsigned int flags,
 			goto err;
 	}
 	path = maildir_set_path(md);
-	if (maildir_opendir(md, path))
+	if (path == NULL || maildir_opendir(md, path))
 		goto err;
 
 	return md;
@@ -405,8 +405,11 @@ maildir_set_path(struct maildir *md)
 		break;
 	}
 	path = pathjoin(md->md_path, sizeof(md->md_path), md->md_root, subdir);
-	if (path == NULL)
-		errc(1, ENAMETOOLONG, "%s", __func__);
+	if (path == NULL) {
+		warnc(ENAMETOOLONG, "%s", __func__);
+		/* Do not leave a truncated path behind. */
+		md->md_path[0] = '\0';
+	}
 	return path;
 }
 
@@ -432,6 +435,8 @@ maildir_stdin(struct maildir *md, const struct environment *env)
 	}
 
 	path = maildir_set_path(md);
+	if (path == NULL)
+		return 1;
 	if (mkdir(path, S_IRUSR | S_IWUSR | S_IXUSR) == -1) {
 		warn("mkdir");
 		return 1;
